@@ -30,6 +30,7 @@ const (
 	clsHandlerTwice    = "C19/stage-handler-more-than-once"
 	clsStatsState      = "C19/stats-state-disagrees-with-outcome"
 	clsErrHandleNil    = "C19/err-handler-called-with-nil"
+	clsNotStarted      = "C19/planned-stage-never-started"
 	clsTaskLostLater   = "C19/task-never-ran"
 )
 
@@ -59,6 +60,7 @@ type stageFacts struct {
 	hExits      int
 	hUnwinds    int
 	lost        bool
+	planned     int // number of stages NextStages() returned
 }
 
 // judge is the trace specification of C19 for one executed tree.
@@ -149,6 +151,8 @@ func judge(out *caseOutcome) (vs []viol, facts map[string]int) {
 			}
 		case evHook:
 			f.hooks = append(f.hooks, e.Seq)
+		case evNextReturn:
+			fmt.Sscan(e.Info, &f.planned)
 		case evHEnter:
 			f.hEnters = append(f.hEnters, e)
 			if e.Info == "err-nil" {
@@ -410,6 +414,31 @@ func judge(out *caseOutcome) (vs []viol, facts map[string]int) {
 			}
 		}
 		facts["stats_checked"] = 1
+	}
+	// the mechanism behind "only at the end": the stages a completed stage plans are registered before it is completed
+	if firstPanic < 0 && out.Quiescent {
+		for _, id := range ids {
+			f := st[id]
+			if f.planned == 0 {
+				continue
+			}
+			var sp *stageSpec
+			for _, s := range out.Spec.stages() {
+				if s.ID == id {
+					sp = s
+				}
+			}
+			started := 0
+			for _, ch := range sp.Children {
+				if cf := st[ch.ID]; cf != nil && cf.registered >= 0 {
+					started++
+				}
+			}
+			if started < f.planned {
+				add(clsNotStarted, "stage s%d planned %d next stages, only %d were handed to the pipeline's state machine although no stage panicked (callback at t=%d)",
+					id, f.planned, started, cb.Seq)
+			}
+		}
 	}
 	if len(out.Lost) > 0 {
 		add(clsTaskLostLater, "async stages %v were handed to their pool and never ran (the pool drained a later sentinel task)", out.Lost)
